@@ -28,21 +28,25 @@ ASSUMPTIONS = ["float32 chan_freqs precision: labels compared to 1e-3*|foff| + 4
 RULE = ("all APIs x channelisations {(-4,1500),(-0.1,1500.1),(-1/3,1234.5678),(+0.1,1400.05),(-0.390625,1510.3),(2pi/100,800.7)} x nchans {8,16,64} x "
         "random (start,nsamps,params); non-trivial = start>0 or a non-identity parameter; distinct = distinct case record")
 CHANNELISATIONS = [(-4.0, 1500.0), (-0.1, 1500.1), (-1.0 / 3.0, 1234.5678), (0.1, 1400.05), (-0.390625, 1510.3), (2 * np.pi / 100, 800.7)]
+NARROW = (-5.0e-5, 1420.4057)     # 50 Hz channels at the HI line: single precision cannot tell neighbouring channels apart
 APIS = ("read_block", "read_block_fch1", "read_dedisp_block", "collapse", "bandpass", "read_chan", "dedisperse", "invert_freq", "downsample",
         "extract_samps", "extract_chans", "extract_bands", "subband", "apply_channel_mask", "remove_zerodm",
-        "block_downsample", "block_dedisperse", "block_get_tim", "block_to_file", "ts_downsample", "ts_pad", "ts_to_tim", "plain_copy")
+        "block_downsample", "block_dedisperse", "block_get_tim", "block_to_file", "ts_downsample", "ts_pad", "ts_to_tim", "ts_to_dat", "plain_copy")
 TSAMP = 6.4e-5
 TSTART = 58123.456789012345
 
 
 def REQUIRED(tier):
-    return [f"api:{a}" for a in APIS] + ["tstart_checks", "label_checks", "shape_checks", "foff>0", "start>0", "regime:crosses_utc_midnight", "regime:remainder_longer_than_output"]
+    return [f"api:{a}" for a in APIS] + ["tstart_checks", "label_checks", "shape_checks", "foff>0", "start>0", "regime:crosses_utc_midnight", "regime:remainder_longer_than_output", "ts_to_dat:odd_length"]
 
 
 def cases(tier, seed):
     rng = np.random.default_rng([seed, 808])
     reps = 25 if tier == "quick" else 300
     k = 0
+    for i in range(6 if tier == "quick" else 60):
+        k += 1
+        yield {"api": "extract_chans", "chan": -1, "nchans": int(rng.choice([8, 16, 64])), "N": int(rng.integers(60, 200)), "nfiles": 1, "pseed": int(seed) * 100003 + 900000 + i}
     for api in APIS:
         for ci in range(len(CHANNELISATIONS)):
             for _ in range(reps):
@@ -64,7 +68,7 @@ def _input(ctx, case):
     if key not in cache:
         if len(cache) > 30:
             cache.clear()
-        foff, fch1 = CHANNELISATIONS[case["chan"]]
+        foff, fch1 = CHANNELISATIONS[case["chan"]] if case["chan"] >= 0 else NARROW
         N, nch = case["N"], case["nchans"]
         X = (64.0 * np.arange(N)[:, None] + np.arange(nch)[None, :]).astype(np.float32)
         d = os.path.join(ctx.tmp, f"i{len(os.listdir(ctx.tmp))}")
@@ -156,7 +160,7 @@ def run_case(case, ctx):
     from sigpyproc.timeseries import TimeSeries
 
     api = case["api"]
-    foff, fch1 = CHANNELISATIONS[case["chan"]]
+    foff, fch1 = CHANNELISATIONS[case["chan"]] if case["chan"] >= 0 else NARROW
     X, paths, d = _input(ctx, case)
     _cur["tstart"] = _tstart_for(case)
     if _cur["tstart"] != TSTART:
@@ -309,6 +313,7 @@ def run_case(case, ctx):
             bs = int(rng.choice([200, 1, 2, 4]))
             case = dict(case, chans=chans.tolist(), batch_size=bs); ck.case = case
             names = fil.extract_chans(chans, os.path.join(d, f"oc{case['pseed']}"), batch_size=bs, **kw)
+            labs = []
             for name, chn in zip(names, chans):
                 ts = TimeSeries.from_tim(name)
                 t, c = _decode(ts.data)
@@ -316,7 +321,14 @@ def run_case(case, ctx):
                 ck.tstart(ts.header, int(t[0]), reg)
                 ck.labels(ts.header, [[int(c[0])]], fch1, foff)
                 ck.nbits_file(name, 32, 1, nsamps)
+                labs.append((int(c[0]), float(ts.header.fch1)))
                 os.unlink(name)
+            # the single-channel products of one call are labelled on one grid: label differences are whole multiples of the channel width
+            ctx.count("label_grid_checks")
+            for (c1, f1_), (c2, f2_) in zip(labs, labs[1:]):
+                if abs((f2_ - f1_) - (c2 - c1) * foff) > 1e-3 * abs(foff):
+                    ctx.violation("label[copy]:extract_chans:grid", f"channels {c1} and {c2} are labelled {f1_!r} and {f2_!r} MHz: {(f2_ - f1_) / foff:.4f} channel widths apart instead of {c2 - c1} (foff={foff})", case)
+                    return
             nontriv = True
         elif api == "extract_bands":
             cps = int(rng.choice([2, 4]))
@@ -452,6 +464,17 @@ def run_case(case, ctx):
                 ck.tstart(t2.header, int(t[0]), reg)
                 ck.nbits_file(name, 32, 1, nsamps)
                 os.unlink(name)
+            elif api == "ts_to_dat":
+                # presto pair: the .inf describes the .dat (number of bins == samples held), odd lengths included
+                base = os.path.join(d, f"p{case['pseed']}")
+                ts.to_dat(base)
+                t2 = TimeSeries.from_dat(base + ".dat")
+                ck.shape(t2.header, nsamps, 1)
+                if t2.data.size != nsamps or os.path.getsize(base + ".dat") != 4 * nsamps:
+                    ctx.violation("shape:ts_to_dat", f"to_dat of {nsamps} samples: .dat holds {os.path.getsize(base + '.dat') // 4}, from_dat returns {t2.data.size} (the .inf declares {t2.header.nsamples})", case)
+                    return
+                if nsamps % 2:
+                    ctx.count("ts_to_dat:odd_length")
         else:
             raise ValueError(api)
     except Exception as exc:  # noqa: BLE001
